@@ -43,10 +43,17 @@ Print Assumptions C12_refuted_by_one_position.
 (* a.lua: local x = 1\nlocal x = x + 1\n *)
 Definition w_B1_own_initialiser : list (list N * list N) :=
   [([97; 46; 108; 117; 97], [108; 111; 99; 97; 108; 32; 120; 32; 61; 32; 49; 10; 108; 111; 99; 97; 108; 32; 120; 32; 61; 32; 120; 32; 43; 32; 49; 10])].
-(* a use of n inside the initialiser list of `local ... n ... = ...` resolves to the NEW local when the initialiser node is not a plain name / call / function expression (`local x = 1; local x = x + 1`: the x in `x + 1` jumps to line 2); IsCorrectPosition only protects NameExp/FuncCallExp/FuncDefExp initialisers *)
-Theorem C12_B1_own_initialiser_refuted : c12_deviates w_B1_own_initialiser [97; 46; 108; 117; 97] 1 10 = true.
+(* B1, FIXED (fixes/C05-own-initialiser.diff): a use of n inside the initialiser list of `local ... n ... = ...` resolved to the
+   NEW local when the initialiser node was not a plain name / call / function expression (`local x = 1; local x = x + 1`:
+   the x in `x + 1` jumped to line 2); IsCorrectPosition only protected NameExp/FuncCallExp/FuncDefExp initialisers.  The
+   declaration now carries the region of its statement's initialiser list (VarInfo.InitLoc) and is invisible from inside it.
+   The witness deviates for the code before the repair (`no_fixes`) and no longer for the code in /repo. *)
+Theorem C12_B1_own_initialiser_refuted_before_fix : c12_deviates_fx no_fixes w_B1_own_initialiser [97; 46; 108; 117; 97] 1 10 = true.
 Proof. vm_compute. reflexivity. Qed.
-Print Assumptions C12_B1_own_initialiser_refuted.
+Print Assumptions C12_B1_own_initialiser_refuted_before_fix.
+Theorem C12_B1_own_initialiser_fixed : c12_deviates w_B1_own_initialiser [97; 46; 108; 117; 97] 1 10 = false.
+Proof. vm_compute. reflexivity. Qed.
+Print Assumptions C12_B1_own_initialiser_fixed.
 
 (* a.lua: local i = 9 for i = i, 10 do end\n *)
 Definition w_B2_for_bounds : list (list N * list N) :=
@@ -102,7 +109,7 @@ Print Assumptions C12_same_pos_other_file_fixed.
 
 
 Theorem C12_full_refuted : ~ C12_full.
-Proof. exact (c12_full_refuted_by _ _ _ _ C12_B1_own_initialiser_refuted). Qed.
+Proof. exact (c12_full_refuted_by _ _ _ _ C12_B2_for_bounds_refuted). Qed.
 Print Assumptions C12_full_refuted.
 
 (* non-vacuity: all four clauses hold at every occurrence of C05's example program *)
@@ -197,17 +204,17 @@ Proof. exact c12_clauses_request. Qed.
 Print Assumptions C12_clauses_1_2_partial_file.
 
 (* non-vacuity: C05's example programs satisfy the whole-file guard, alone and as a two-file workspace (25 of 33 and
-   36 of 43 occurrences bound to locals); the witness programs of B1, B4 are rejected, the one of the
-   repaired class doc_end is accepted; the per-variable
-   guard separates the two x of the B1 witness *)
+   36 of 43 occurrences bound to locals); the witness programs of B2, B4 are rejected, the ones of the
+   repaired classes doc_end and B1 are accepted; the per-variable
+   guard separates the two i of the B2 witness *)
 Example C12_closed_guard_nonvacuous :
   request_guard 1000 [(a_lua, src_ok)] a_lua = true /\ request_guard 1000 [(a_lua, src_core)] a_lua = true /\
   request_guard 1000 [(a_lua, src_ok); (b_lua, src_core)] b_lua = true /\
   length (filter (fun s => match s_bind s with BLocal _ => true | BGlobal _ => false end) (bind_file (chunk_of src_core))) = 36%nat /\
-  request_guard 1000 w_B1_own_initialiser a_lua = false /\ request_guard 1000 w_B4_forward_decl a_lua = false /\
-  request_guard 1000 [(a_lua, src_doc_end)] a_lua = true /\
-  var_request_guard 1000 w_B1_own_initialiser a_lua (mk_loc 2 6 2 7) = true /\
-  var_request_guard 1000 w_B1_own_initialiser a_lua (mk_loc 1 6 1 7) = false.
+  request_guard 1000 w_B2_for_bounds a_lua = false /\ request_guard 1000 w_B4_forward_decl a_lua = false /\
+  request_guard 1000 [(a_lua, src_doc_end)] a_lua = true /\ request_guard 1000 w_B1_own_initialiser a_lua = true /\
+  var_request_guard 1000 w_B2_for_bounds a_lua (mk_loc 1 16 1 17) = true /\
+  var_request_guard 1000 w_B2_for_bounds a_lua (mk_loc 1 6 1 7) = false.
 Proof. vm_compute. repeat split; reflexivity. Qed.
 
 (* ================================================================== wide fragment (agent wide-fragment)
